@@ -875,7 +875,7 @@ func runC11P(cfg *hx.Config) {
 	// ---- seeded
 	n := 14
 	if cfg.Thorough() {
-		n = 400
+		n = 200
 	}
 	for _, name := range []string{"Opts", "Dflt", "Incl", "Incl2", "Big", "DOuter", "Prims", "Coll", "WithU", "Rec"} {
 		for _, ds := range patchSpecs[name] {
